@@ -543,6 +543,10 @@ impl State {
                 };
                 let (new_write, new_path) = open_log_file(&self.config, Some(&infix))?;
 
+                // a buffering writer swallows errors when it is dropped
+                current_write.flush().unwrap_or_else(|e| {
+                    eprint_err(ErrorCode::Flush, "flushing the rotated file failed", &e);
+                });
                 *current_write = new_write;
                 *current_path = new_path;
 
@@ -650,7 +654,9 @@ impl State {
             if let Some(ref mut rotation_state) = o_rotation_state {
                 rotation_state.shutdown();
             }
-            writer.flush().ok();
+            writer.flush().unwrap_or_else(|e| {
+                eprint_err(ErrorCode::Flush, "flushing failed", &e);
+            });
         }
     }
 }
